@@ -48,6 +48,10 @@ def gen_operators(rng, spec, n=None, p_constraints=0.35, allow_prod=True):
             s = {"nvars": 1, "nwild": 0, "body": fun(*ps, rng.choice([x, k2])), "constraints": []}
         elif r < 0.12:
             s = {"nvars": 0, "nwild": 0, "body": conc(1), "constraints": []}          # constant
+            if comps and rng.random() < 0.4:
+                # a polymorphic data constant (nil : L(x)): every use must get its own variables
+                c = rng.choice(comps)
+                s = {"nvars": 1, "nwild": 0, "body": (c, tuple(('v', 0) if j == 0 else base() for j in range(spec.arity(c)))), "constraints": []}
         elif r < 0.38:
             k = rng.randint(1, 3)
             s = {"nvars": 0, "nwild": 0, "body": fun(*[conc(rng.randint(0, 1)) for _ in range(k + 1)]), "constraints": []}
@@ -94,6 +98,8 @@ def build_typed_language(spec, ops, opdecls, canon=None, include_top=False, incl
     for name, s in opdecls:
         src = I.schema_src(s, spec)
         fn = eval(src, {"OPS": ops, "_": T._})
+        if s["nvars"] == 0 and s["nwild"] == 0 and not I.is_var(s["body"]) and not s["body"][1]:
+            fn = fn()           # a constant of a base type is declared as users do: Operator(type=A)
         operators[name] = Operator(type=fn, name=name)
     lang = G.build_language(spec, ops, canon=canon, include_top=include_top, include_bottom=include_bottom,
         operators=operators, aliases=aliases)
